@@ -3,5 +3,6 @@
 
 pub mod cards;
 pub mod hand5;
+pub mod evalmodel;
 pub mod runner;
 pub mod props;
